@@ -103,6 +103,15 @@ def shapes(quick=True):
                           ("if", [(eq("s", 0), [choice("s", [(F(1, 2), c(1)), (F(1, 2), c(0))])])],
                            [choice("s", [(F(1, 2), c(2)), (F(1, 2), c(1))])])]},
                 [("E", {"y": 1}), ("E", {"s": 1}), ("E", {"y": 2})], "inequality-guard+two-stage"))
+    # guard with an inequality over a three-valued variable that is redrawn (two values satisfy the guard: the normalised
+    # guard is a disjunction s == 0 or s == 1); terminating a.s. / only with positive probability (s stuck at 1)
+    out.append(({"types": [], "init": [asg("s", c(0)), asg("y", c(0))], "guard": ("atom", v("s"), "<", c(2)),
+                 "body": [choice("s", [(F(1, 2), c(0)), (F(1, 4), c(1)), (F(1, 4), c(2))]), asg("y", ("add", v("y"), c(1)))]},
+                [("E", {"y": 1}), ("E", {"s": 1})], "inequality-guard+redraw"))
+    out.append(({"types": [], "init": [asg("s", c(0)), asg("y", c(0))], "guard": ("atom", v("s"), "<", c(2)),
+                 "body": [("if", [(eq("s", 0), [choice("s", [(F(1, 2), c(0)), (F(1, 4), c(1)), (F(1, 4), c(2))])])], None),
+                          asg("y", ("add", v("y"), v("s")))]},
+                [("E", {"y": 1})], "inequality-guard+stuck-with-prob-1/2"))
     # the same two-stage chain with two flags (n*r^n terms, two-valued types only)
     out.append(({"types": [], "init": [asg("a", c(0)), asg("b", c(0)), asg("y", c(0))], "guard": eq("b", 0),
                  "body": [asg("y", ("add", v("y"), c(1))),
@@ -601,6 +610,67 @@ def ratio_rows(rows, ms, g, n):
     return convert(g[0], k, raws)
 
 
+def tail_bounds(ctx, shapes_):
+    """tail-bound goals after the loop (real GoalsAction.handle_tail_bound_*_goal with --after_loop): the printed upper
+    bounds must be E(M^k | exit)/a^k and the lower bound (E(M)-a)^2/(E(M^2)-2aE(M)+a^2) for the after-loop moments the
+    same run reports for E(M), E(M**2) (those values are what the main part of this check validates)."""
+    tasks, meta = [], []
+    for p, goals, tag in shapes_:
+        raw = [g for g in goals if g[0] == "E" and sum(g[1].values()) == 1]
+        if not raw or tag.startswith("divergent") or tag.startswith("collapse"):
+            continue
+        mon = gen.goal_text(raw[0][1])
+        tasks.append({"kind": "afterloop_tail", "text": P.prog_text(p), "monom": mon, "a": 3, "timeout": 90})
+        meta.append((p, tag, mon))
+    res = lib.run_tasks(tasks, timeout=90)
+    st = {"programs": len(tasks), "agree": 0, "inconclusive": 0, "infinite_or_symbolic_moments": 0}
+    ctx.coverage["tail_bounds_after_loop"] = st
+    for (p, tag, mon), r in zip(meta, res):
+        text = P.prog_text(p)
+        if r.get("error") in ("timeout", "crash"):
+            st["inconclusive"] += 1
+            continue
+        ctx.coverage["obligations"] += 1
+        ctx.count({"tail": text, "m": mon}, nontrivial=True)
+        finite = lambda t: bool(re.fullmatch(r"-?\d+/\d+", t or ""))
+        if ("exception" in r or "error" in r) and r.get("stage") in ("upper", "lower") and not (finite(r.get("m1")) and finite(r.get("m2"))):
+            # a bound built from a divergent / symbolic after-loop moment: sympy's limit_seq may give up; nothing is reported
+            st["infinite_or_symbolic_moments"] += 1
+            ctx.coverage["obligations"] -= 1
+            continue
+        if "exception" in r or "error" in r:
+            ex = r.get("exception") or {}
+            ctx.violation(f"after-loop-tail-bound:refused:{r.get('stage')}:{ex.get('etype', r.get('error'))}",
+                          {"program_text": text, "goals": r.get("goals"), "result": r},
+                          f"tail-bound goals with --after_loop fail at goal '{r.get('stage')}' ({ex.get('etype')}: {str(ex.get('msg'))[:200]}) on\n{text}")
+            continue
+        m1, m2 = r.get("m1", ""), r.get("m2", "")
+        if not re.fullmatch(r"-?\d+/\d+", m1) or not re.fullmatch(r"-?\d+/\d+", m2):
+            st["infinite_or_symbolic_moments"] += 1
+            ctx.coverage["obligations"] -= 1
+            continue
+        m1, m2, a = Fraction(m1), Fraction(m2), Fraction(3)
+        ups = re.findall(r"^\s*\((\d+)\)\s*(\S+)\s*$", r.get("upper_printed", ""), re.M)
+        low = re.search(r">=\s*(\S+)\s*$", r.get("lower_printed", "").strip().splitlines()[1] if len(r.get("lower_printed", "").strip().splitlines()) > 1 else "", re.M)
+        want_up = sorted([m2 / a ** 2, m1 / a])   # "minimum of": the order of the printed list carries no meaning
+        den = m2 - 2 * a * m1 + a * a
+        want_low = (m1 - a) ** 2 / den if den != 0 else None
+        try:
+            got_up = sorted(Fraction(x) for _, x in ups)
+            got_low = Fraction(low.group(1)) if low else None
+        except (ValueError, ZeroDivisionError):
+            got_up, got_low = None, None
+        if got_up == want_up and (want_low is None or got_low == want_low):
+            st["agree"] += 1
+            ctx.coverage["discharged"] += 1
+        else:
+            ctx.violation(f"after-loop-tail-bound:{text}:{mon}", {"program_text": text, "monomial": mon, "a": 3, "result": r,
+                                                                   "expected_upper": [str(x) for x in want_up], "expected_lower": str(want_low)},
+                          f"tail bounds after the loop for {mon} (a = 3): printed upper bounds {[x for _, x in ups]} / lower bound "
+                          f"{low.group(1) if low else None}, but E({mon}) = {m1}, E({mon}**2) = {m2} after the loop give "
+                          f"{[str(x) for x in want_up]} / {want_low}\n{text}")
+
+
 def run(ctx):
     import oracle
     ok, log = lib.coq_check_props(ctx)
@@ -962,6 +1032,7 @@ def run(ctx):
             ctx.sample({"program": text, "goal": gname, "printed": shown, "conditional_sequence_n1..": gr.get("cond_values", [])[1:6],
                         "exact_n0..": [str(ratio_rows(exact[b["i"]]["rows"], ometa[b["i"]]["ms"], b["g"], n)) for n in range(0, 5)],
                         "limit_from_validated_closed_forms": str(exp[1]) if exp[0] == "val" else "infinite"})
+    tail_bounds(ctx, base[:n_shapes])
     ctx.coverage["rule"] = (f"one case = (program, goal); {n_shapes} hand-written guarded shapes (one/two-variable guards, inequality guard, collapse of a first-level if, "
                             "termination a.s. / with probability < 1 / already at the start, constant / state-dependent / divergent exit "
                             "expectations) + programs from harness/gen.py with guard=True (no multi-assignment); goals: raw moments of degree <= 3, "
